@@ -25,6 +25,15 @@ PREFER["5"] = ("This time prefer one of the following kinds of change: (j) a doc
                "shortcut, early return) that triggers only for particular structures such as diagonal, rank-one, commuting, equal or identity inputs; (m) a "
                "slip in argument conversion: dtype promotion, 0-d arrays, shape handling, integer versus float parameters. Do NOT use in-place modification "
                "of the caller's arguments, caches / module-level state, or exact-zero priors (all used in earlier rounds).")
+PREFER["6"] = ("This time prefer one of the following kinds of change: (n) a clause of the STATEMENT above that none of the earlier seeded changes targets - "
+               "go through its sentences (each equality, inequality, invariance, special value, rejection) and pick one; (o) the structure of what is "
+               "returned: a second return value (measurement operators, decomposition factors, certificates, Kraus lists) that is wrong while the first "
+               "is right, or a wrong ordering / shape / normalisation of returned objects; (p) sizes beyond the smallest ones: an off-by-one or a wrong "
+               "index that shows only for five or more parties, local dimension five or more, three or more repetitions / levels, or ranks above two; "
+               "(q) numerically delicate but valid inputs: nearly rank-deficient or nearly degenerate operators, entries spanning many orders of magnitude, "
+               "a trace equal to one only up to 1e-12; (r) solver-related paths: primal versus dual branch, option pass-through, an alternative solver "
+               "argument. Do NOT use in-place modification of the caller's arguments, caches / module-level state, exact-zero priors, tolerance-argument "
+               "swaps, row-vector handling or single-number dimension arguments (all used in earlier rounds).")
 TEMPLATE = open(os.path.join(os.path.dirname(os.path.abspath(__file__)), "seedprompt.template.txt")).read()
 os.makedirs(f"/tmp/seeded{ROUND}", exist_ok=True)
 for line in open("/verif/properties.jsonl"):
